@@ -297,7 +297,9 @@ func c05Rules(rng *rand.Rand, dir, file string) []c05Rule {
 	return rs
 }
 
-const c05BaseAlpha = "0123456789azAZ.,-+_@:/ '\"()|~=\t\x00\n测X"
+// the last characters are look-alikes outside ASCII (full-width, Arabic-Indic and Devanagari digits, a superscript,
+// full-width letter / dot / at-sign / hyphen / colon): Unicode classes are not the documented ASCII ones
+const c05BaseAlpha = "0123456789azAZ.,-+_@:/ '\"()|~=\t\x00\n测X" + "１９٣२²ａ．＠－："
 
 func editOnce(rng *rand.Rand, s string, alpha string) string {
 	rs := []rune(s)
@@ -529,13 +531,13 @@ func runC05(c *core.Ctx) {
 			text = pick(rng, "ints", "ints|msg")
 			n := 1 + rng.Intn(4)
 			if rng.Intn(2) == 0 {
-				s := make([]string, n)
+				s := make([]string, n, n+n%3)
 				for j := range s {
 					s[j] = pick(rng, digits(rng, 1+rng.Intn(3)), digits(rng, 2), "a", "1.5", "", " 1", "1 ", "18446744073709551616", digits(rng, 30))
 				}
 				v = reflect.ValueOf(s)
 			} else {
-				s := make([]uint32, n)
+				s := make([]uint32, n, n+n%3)
 				for j := range s {
 					s[j] = uint32(rng.Intn(100))
 				}
@@ -546,19 +548,19 @@ func runC05(c *core.Ctx) {
 			n := 1 + rng.Intn(5)
 			switch rng.Intn(4) {
 			case 0:
-				s := make([]string, n)
+				s := make([]string, n, n+n%3)
 				for j := range s {
 					s[j] = pick(rng, "a", "b", "c", "测", "", "a ")
 				}
 				v = reflect.ValueOf(s)
 			case 1:
-				s := make([]int, n)
+				s := make([]int, n, n+n%3)
 				for j := range s {
 					s[j] = rng.Intn(6) - 2
 				}
 				v = reflect.ValueOf(s)
 			case 2:
-				s := make([]float64, n)
+				s := make([]float64, n, n+n%3)
 				for j := range s {
 					s[j] = []float64{0.5, 1, 1.5, 2, 0.1, 1e21}[rng.Intn(6)]
 				}
